@@ -33,8 +33,8 @@ Definition box_dagger (b : box) : box :=
   match bk b with
   | KBox => Box KBox (bname b) (bcod b) (bdom b) (negb (bdag b)) (bdata b)
   | KSwap => Box KSwap (bname b) (bcod b) (bdom b) false (bdata b)
-  | KCup => Box KCap (bname b) (bcod b) (bdom b) false (bdata b)
-  | KCap => Box KCup (bname b) (bcod b) (bdom b) false (bdata b)
+  | KCup => Box KCap (-3) (bcod b) (bdom b) false (bdata b)
+  | KCap => Box KCup (-2) (bcod b) (bdom b) false (bdata b)
   end.
 
 (* monoidal.Layer *)
